@@ -28,7 +28,7 @@ def dict_types(ins):
     return has
 
 
-def run(ctx, props=PROPS, random_only=False, nrand=None):
+def run(ctx, props=PROPS, random_only=False, nrand=None, gen_cls=None, leg=None):
     PROPS = props
     quick = ctx.quick()
     with Lock():
@@ -45,7 +45,9 @@ def run(ctx, props=PROPS, random_only=False, nrand=None):
         corpus = [c for c in repo_corpus(quick) if not (quick and c[0] == 'goldmaster')]
         if random_only:
             corpus = []
-        units = prepare_units(ctx, corpus + randschema.make_specs(ctx, nrand or (8 if quick else 50)), bins)
+        units = prepare_units(ctx, corpus + randschema.make_specs(ctx, nrand or (8 if quick else 50), gen_cls=gen_cls), bins)
+        if leg is not None:     # C11: the kernel dump of these units is cross-checked too (lib/indep_ir.py)
+            leg.run(units)
     log('[C02] units ready', round(time.time() - ctx.t0))
     nvals = 4 if quick else 40
     nmut = 8 if quick else 40
@@ -113,7 +115,10 @@ def run(ctx, props=PROPS, random_only=False, nrand=None):
                 ops.append((f"rw1 {san} {tid} {name} {rng.randrange(2) if x['kind'] != 'union' else 1} {rb.hex() or '-'}", "random", tid))
         ops += nc_ops
         lines = [o[0] for o in ops]
-        rc1, mo, err1 = run_lines(ref, [str(u.ir_path)], lines)
+        # the model builds the element list of a hostile count even when the elements occupy no bytes (`(vector (tuple Bool 0))`,
+        # empty bare structs): cap its memory; without --checkLengthSanity such inputs are unbounded by design and are not compared
+        mo = run_lines_resilient(ref, [str(u.ir_path)], lines, timeout=900, mem_gb=2, max_restarts=40)
+        rc1, err1 = 0, ""
         go = run_lines_resilient(u.gen.exe, [], lines, timeout=300, mem_gb=3, max_restarts=200)
         if rc1 != 0 or len(mo) != len(lines) or len(go) != len(lines):
             with lock:
@@ -126,6 +131,12 @@ def run(ctx, props=PROPS, random_only=False, nrand=None):
             uverd[f"{kind}:{v}"] = uverd.get(f"{kind}:{v}", 0) + 1
             f = l.split(" ")
             inp = f[5] if f[5] != "-" else ""
+            if m.startswith("crash model-timeout"):    # the list-based model exceeded its per-operation time limit (hostile count over zero-size elements)
+                uverd["model-timeout-skipped"] = uverd.get("model-timeout-skipped", 0) + 1
+                continue
+            if m.startswith("crash") and not u.san:
+                uverd["nosan-model-resource-skipped"] = uverd.get("nosan-model-resource-skipped", 0) + 1
+                continue
             if g.startswith("ok "):
                 gf = g.split(" ")
                 consumed = int(gf[1])
@@ -191,7 +202,7 @@ def run(ctx, props=PROPS, random_only=False, nrand=None):
             ctx.violation(f"{pid}:tools", "cannot build tl2gen/verifdump from /repo: " + trunc(berr, 600), {"error": berr}, no_input=True)
         if ref_err:
             ctx.violation(f"{pid}:model-build", "reference model does not build: " + trunc(ref_err, 600), {"error": ref_err}, no_input=True)
-        for name, e in unit_errors[:10]:
+        for name, e in reportable_unit_errors(unit_errors, ctx)[:10]:
             ctx.violation(f"{pid}:unit:{name}", f"schema unit {name}: {trunc(e, 600)}", {"unit": name, "error": e}, no_input=True)
         for name, l, m, g in mism[:30]:
             ctx.violation(f"{pid}:corr:{name}:{trunc(l, 60)}", f"corr:C02:accept {name}: model and generated code differ on {trunc(l, 140)}: model={trunc(m, 90)} go={trunc(g, 90)}",
